@@ -57,8 +57,13 @@ class Case(dict):
         return hashlib.blake2b(self.line.encode(), digest_size=8).digest()
 
 
-def mk(op, *args, tag=''):
-    return Case(op=op, args=[str(a) for a in args], tag=tag)
+def mk(op, *args, tag='', ood=False):
+    """ood=True marks an input OUTSIDE the property's quantifier (kept to exercise the model's explicit error
+    branches): a divergence on it is recorded in the evidence as an observation, never reported as a violation."""
+    c = Case(op=op, args=[str(a) for a in args], tag=tag)
+    if ood:
+        c['ood'] = True
+    return c
 
 
 def hx(b):
@@ -107,9 +112,31 @@ def exc_family(e):
             return 'rpcerr'
     except ImportError:
         pass
-    if isinstance(e, ValueError) and type(e) is ValueError:
-        return 'valueerr'
+    if isinstance(e, ValueError) and (type(e) is ValueError
+                                      or (type(e).__module__ or '').split('.')[0] == 'bitcoin'):
+        return 'valueerr'          # plain ValueError or a subclass the library itself defines
+    if isinstance(e, HARNESS_REACH_ERRORS) and _raised_in_harness(e):
+        # the harness (not the library) failed to reach a name it uses as an auxiliary observable (a private
+        # attribute, an internal helper, a monkeypatch point): the case is not observable, not a verdict
+        return 'harness:' + type(e).__name__
     return 'py:' + type(e).__name__
+
+
+HARNESS_REACH_ERRORS = (AttributeError, ImportError, NameError)
+HARNESS_DIR = os.path.join(VERIF, 'harness')
+
+
+def _raised_in_harness(e):
+    tb = e.__traceback__
+    last = None
+    while tb is not None:
+        last = tb
+        tb = tb.tb_next
+    return last is not None and last.tb_frame.f_code.co_filename.startswith(HARNESS_DIR)
+
+
+def unobservable(impl_out):
+    return 'err:harness:' in impl_out
 
 
 def guarded(fn):
@@ -322,7 +349,19 @@ def _worker(args):
             return
         outs = run_driver([prop.model_line(c) for c, _ in batch])
         for (c, io), mo in zip(batch, outs):
+            if unobservable(io):
+                k = res.setdefault('skipped', {})
+                k[c['op']] = k.get(c['op'], 0) + 1
+                if len(res.setdefault('skipped_ex', [])) < 3:
+                    res['skipped_ex'].append((dict(c), io[:200]))
+                continue
             if not prop.agree(c, io, mo):
+                if c.get('ood'):
+                    k = res.setdefault('ood', {})
+                    k[c['op']] = k.get(c['op'], 0) + 1
+                    if len(res.setdefault('ood_ex', [])) < 3:
+                        res['ood_ex'].append((dict(c), io[:200], mo[:200]))
+                    continue
                 # keep a few examples per failure class so one flood cannot hide another defect
                 try:
                     cls = prop.signature(c, io, mo)
@@ -523,6 +562,28 @@ def main_check(prop, modname, clsname, tier, seed):
         # the harness itself failed on the working tree: the correspondence cannot be established
         broken_ties.append(('correspondence:%s:harness-run' % prop.id, errs[0]))
 
+    # cases the harness could not observe (an auxiliary observable — private attribute, internal helper,
+    # monkeypatch point — is not reachable in this tree) and divergences on inputs outside the property's
+    # quantifier: recorded, never verdicts.  If most of the run is unobservable the correspondence is lost.
+    skipped, ood = {}, {}
+    for r in results:
+        for k, v in r.get('skipped', {}).items():
+            skipped[k] = skipped.get(k, 0) + v
+        for k, v in r.get('ood', {}).items():
+            ood[k] = ood.get(k, 0) + v
+    skipped_ex = [e for r in results for e in r.get('skipped_ex', [])][:3]
+    ood_ex = [e for r in results for e in r.get('ood_ex', [])][:3]
+    nskip = sum(skipped.values())
+    if nskip:
+        print('NOTE %s: %d case(s) of op(s) %s could not be observed by the harness in this tree (e.g. %s) — '
+              'not compared' % (prop.id, nskip, ','.join(sorted(skipped)), skipped_ex[0][1][:120] if skipped_ex else ''))
+    if ood:
+        print('NOTE %s: %d divergence(s) on inputs outside the property\'s domain (op(s) %s) — recorded as '
+              'observations, not violations' % (prop.id, sum(ood.values()), ','.join(sorted(ood))))
+    if n and 2 * nskip > n and not mism:
+        broken_ties.append(('correspondence:%s:harness-run' % prop.id,
+                            '%d of %d cases unobservable: %r' % (nskip, n, skipped_ex[:1])))
+
     # -- 4: known findings, shrinking, replays ---------------------------------------------------
     known = {k['signature']: k for k in load_known()
              if k.get('property') == prop.id and k.get('kind') == 'known'}
@@ -591,6 +652,8 @@ def main_check(prop, modname, clsname, tier, seed):
                shards=len(results), tier_run=run_tier,
                truncated_by_budget=any(r['truncated'] for r in results), canary=canary,
                spec_vectors_as_tests=spec_vectors,
+               unobservable_cases=dict(count=nskip, by_op=skipped, examples=skipped_ex),
+               out_of_domain_divergences=dict(count=sum(ood.values()), by_op=ood, examples=ood_ex),
                leanchecker=b['audit'].get('leanchecker', 'not run (thorough tier only)'))
     write_evidence(prop, tier, seed, time.time() - t0, cov, b['audit'], {}, nviol)
     print('%s %s: %d cases (%d distinct non-trivial), %d theorem obligations discharged of %d, %d violation(s), %.1fs'
@@ -618,18 +681,43 @@ def canary_selftest(prop, samples):
     return dict(tried=tried, fired=fired)
 
 
-def main_replay(prop, path):
+def main_replay(prop, path, modname=None, clsname=None):
     ensure_repo_on_path()
     with open(path) as f:
         j = json.load(f)
     if 'broken_tie' in j:
+        name = j['broken_tie']
+        if name.startswith('correspondence:'):
+            # the harness could not establish the correspondence (setup or run raised): try again
+            still = None
+            try:
+                prop.setup()
+            except Exception:  # noqa: BLE001
+                still = traceback.format_exc(limit=4)
+            if still is None and not name.endswith(':harness-setup') and modname:
+                from . import litmine
+                prop.pool = litmine.pool(REPO, prop.anchors)
+                results = run_cases(prop, modname, clsname, 'quick', 0, budget_s=120, want_cov=False)
+                errs = [r['err'] for r in results if r['err']]
+                n = sum(r['n'] for r in results)
+                nskip = sum(sum(r.get('skipped', {}).values()) for r in results)
+                if errs:
+                    still = errs[0]
+                elif n and 2 * nskip > n:
+                    still = '%d of %d cases unobservable' % (nskip, n)
+            if still is not None:
+                print('tie %s is still broken:\n%s' % (name, still[-800:]))
+                print('VIOLATION property=%s replay=%s no-failing-input-found' % (prop.id, path))
+                return 1
+            print('replay: tie %s checks again' % name)
+            return 0
         from . import build
         b = build.prepare(prop)
-        still = [n for n, _ in b['broken_ties'] if n == j['broken_tie']]
+        still = [n for n, _ in b['broken_ties'] if n == name]
         if still or b['infra_error']:
             print('VIOLATION property=%s replay=%s no-failing-input-found' % (prop.id, path))
             return 1
-        print('replay: tie %s checks again' % j['broken_tie'])
+        print('replay: tie %s checks again' % name)
         return 0
     prop.setup()
     c = Case(j['case'])
